@@ -49,6 +49,7 @@ def run(chk, tier):
         rebrand(chk, prog, c)
         static_returns(chk, prog, c)
         free_output_lifetimes(chk, prog, c)
+        brand_provenance(chk, prog, c)
         root_collect_bound(chk, prog, c)
         common.unsafe_macros(chk, prog, "C12", c)
     res = witness.report(chk, "C12", rule="escape-corpus", floor=80, tier=tier)
@@ -233,6 +234,46 @@ def free_output_lifetimes(chk, prog, c):
                  loc="%s:%s" % (f["span"]["f"], f["span"]["l"]),
                  sample={"fn": f["n"], "output": out, "free": names})
     chk.floor("exported-safe-fns[%s]" % c, n, 80)
+
+
+def brand_provenance(chk, prog, c):
+    """A brand can only come from a brand. In the return type of an exported safe function - and in the argument types
+    of its own, not higher-ranked, closure bounds - every lifetime standing in a *brand position* (the invariant
+    lifetime argument of Gc / GcWeak / Mutation / Finalization / DynamicRootSet .., or the lifetime of a
+    `<R as Rootable<'x>>::Root` projection) must stand in a brand position of an input: then the caller holds a value
+    of that brand already. A brand tied to anything else - the borrow of the arena, say - is chosen by the caller,
+    and two arenas' borrows unify to one region (`mem::swap(a.root_mut(), b.root_mut())`). Generative brands are the
+    bound regions of `for<'gc>` closure bounds; unlinked builders may pick their brand freely (completing them needs
+    a `&Mutation` of the same brand)."""
+    n = 0
+    for f in prog.f["fns"]:
+        if f["kind"] not in ("Fn", "AssocFn") or not (f.get("reachable") or f.get("exported")) or f.get("unsafe"):
+            continue
+        if "out_brands" not in f:
+            chk.anchor("fn signature brand regions from the driver", False, "(config %s)" % c)
+            return
+        n += 1
+        have = set(f["in_brands"])
+        out = f["output"]["s"]
+        free_out = sorted(set(f["out_brands"]) - have)
+        if out.startswith(FREE_BRAND_OK) or out.startswith(("*const ", "*mut ")):
+            free_out = []
+        # bound regions ('^n..) of a higher-ranked closure bound are generative
+        free_cb = sorted(r for r in set(f["fn_bound_brands"]) - have if not r.startswith("'^"))
+        probs = []
+        if free_out:
+            probs.append("returns `%s`, whose brand lifetime(s) %s stand in no brand position of an input" % (
+                out, [r.split("/")[0] for r in free_out]))
+        if free_cb:
+            probs.append("passes values branded %s to a closure bound that is not higher-ranked over the brand" % (
+                [r.split("/")[0] for r in free_cb],))
+        chk.inst("brand-provenance", "%s[%s]" % (f["n"], c), not probs,
+                 detail="exported safe fn `%s` %s: the caller chooses the brand (for instance the lifetime of a borrow of the "
+                        "arena), so values of two arenas can be given the same brand and exchanged" % (f["n"], "; ".join(probs)),
+                 loc="%s:%s" % (f["span"]["f"], f["span"]["l"]),
+                 nontrivial=bool(f["out_brands"] or f["fn_bound_brands"]),
+                 sample={"fn": f["n"], "output": out, "out_brands": f["out_brands"], "in_brands": f["in_brands"]} if f["out_brands"] else None)
+    chk.floor("exported-safe-fns-brand-provenance[%s]" % c, n, 80)
 
 
 def root_collect_bound(chk, prog, c):
